@@ -121,3 +121,14 @@ OLD2NEW = {"OldLeaf": "NewLeaf", "OlderLeaf": "NewLeaf", "OldMid": "NewMid", "Re
            "MovedTask": "NewTask", "OldBig": "NewBig", "OldAux": "NewAux"}
 CLASSES = {c.__name__: c for c in (NewLeaf, OldLeaf, OlderLeaf, NewAux, OldAux, NewMid, OldMid, Plain, NewTask, RenamedTask,
                                    MovedTask, Holder, NewBig, OldBig)}
+
+
+# ---------------------------------------------------------------- directed probe (not used by the random generators)
+class DefHolder(Config):
+    """a parameter whose DEFAULT is a configuration: a value equal to the default is skipped by the identifier,
+    and `Config.__eq__` compares the python classes"""
+    n: Param[int]
+    leaf: Param[NewLeaf] = NewLeaf(v=1)
+
+
+PROBES = {"DefHolder": DefHolder}
